@@ -250,7 +250,7 @@ fn op_strategy() -> impl Strategy<Value = Op> {
 }
 
 pub fn run(run: &mut Run) -> PResult {
-    run.rule = "histories: for each size 2..7 a sequence of 1..40 operations (construct from an array, construct from parts / by the slot constructor, set one slot, select five slots) with arbitrary u32 words, compared after every step with a plain array that received the same writes — by accessor, to_arr, iter and equality with From<array>; exhaustively: every setter of every size on distinct sentinel words, every constructor, every in-range index tuple for five_from_permutation on Six (6^5) and Seven (7^5). Non-trivial = histories containing a setter followed by a read (every step is followed by a full read); distinct by 64-bit hash of the history".into();
+    run.rule = "histories: for each size 2..7 a sequence of 1..40 operations (construct from an array, construct from parts / by the slot constructor, set one slot, set one slot to its current word with one bit flipped, select five slots) with arbitrary u32 words (cards, flagged cards, corruptions, raw), compared after every step with a plain array that received the same writes — by accessor, to_arr, iter and equality with From<array>; exhaustively: every setter of every size on distinct sentinel words, every constructor, a rewrite sequence per setter (a card, each of its 32 one-bit variants, blank, all-ones, blank), every in-range index tuple for five_from_permutation on Six (6^5) and Seven (7^5) over three kinds of stored words. Non-trivial = histories containing a setter followed by a read (every step is followed by a full read); distinct by 64-bit hash of the history".into();
     run.assume("out-of-range selection indexes are outside the statement (they index past the array)");
     super::regress::replay_dir(run, "C19", check_case)?;
     let thorough = run.tier == Tier::Thorough;
